@@ -1,5 +1,5 @@
 SPECIFICATION GSpec
-CONSTANTS NLeaf = 38
+CONSTANTS NLeaf = 44
   NKey = 6
   MaxDepth = 1
   Sim = FALSE
